@@ -349,6 +349,35 @@ func TestVerif_C01(t *testing.T) {
 		check(r, k, c01Event(r, vk.HostileString(r, 40)), "random")
 	})
 
+	// (1b) long contents (4-14 kB) made of multi-byte runes with escapable characters
+	// sprinkled in, so that any block-wise or buffered serializer is crossed at many offsets
+	nLong := vk.N(150, 1500)
+	vk.Parallel(nLong, func(i int) {
+		r := vk.RNG("C01/long", i)
+		var b strings.Builder
+		target := 4000 + r.IntN(10000)
+		for b.Len() < target {
+			switch r.IntN(40) {
+			case 0:
+				b.WriteByte(byte(r.IntN(0x20)))
+			case 1:
+				b.WriteString(vk.Pick(r, []string{"\"", "\\", "<", "&", "\u2028", "\x7f"}))
+			case 2, 3, 4:
+				b.WriteByte(byte('a' + r.IntN(26)))
+			case 5, 6:
+				b.WriteRune(rune(0x10000 + r.IntN(0xffff)))
+			default:
+				b.WriteRune(vk.Pick(r, []rune{0xe9, 0x3042, 0x4e2d, 0x20ac, 0x0416, 0x05d0}))
+			}
+		}
+		e := c01Event(r, b.String())
+		if i%3 == 0 {
+			e.Tags = append(e.Tags, mocrelay.Tag{"t", b.String()[:utf8Cut(b.String(), 5000)]})
+		}
+		check(r, keys[i%len(keys)], e, "long content")
+		rep.Count("long_contents", 1)
+	})
+
 	// (2) code-point sweep: every scalar value of the BMP, 64 per event, and the
 	// interesting ones alone; astral samples
 	var blocks [][]rune
@@ -456,4 +485,15 @@ func classKey(e *mocrelay.Event) string {
 		return "plain"
 	}
 	return "other"
+}
+
+// utf8Cut returns the largest rune boundary <= n.
+func utf8Cut(s string, n int) int {
+	if n >= len(s) {
+		return len(s)
+	}
+	for n > 0 && !utf8.RuneStart(s[n]) {
+		n--
+	}
+	return n
 }
